@@ -9,13 +9,16 @@ use crate::core::*;
 use crate::exec::*;
 use crate::report::*;
 use serde_json::json;
-use std::collections::HashSet;
+use std::collections::{HashMap, HashSet};
 use std::path::{Path, PathBuf};
 use std::sync::Arc;
 
 pub type ExtraFn = dyn Fn(&[Ev]) -> Vec<Ev> + Sync + Send;
 pub type PostFn = dyn Fn(&mut Exec, &[Ev]) -> Result<(), Fail> + Sync + Send;
 pub type FilterFn = dyn Fn(&[Ev], &Ev) -> bool + Sync + Send;
+
+/// thorough tier: every graph search validates its state identity (see `Scenario::merge_check`)
+pub static MERGE_CHECK_DEFAULT: std::sync::atomic::AtomicBool = std::sync::atomic::AtomicBool::new(false);
 
 #[derive(Clone)]
 pub struct Scenario {
@@ -56,6 +59,9 @@ pub struct Scenario {
 	/// never capped.
 	pub fault_site_cap: Option<usize>,
 	pub check_iter_rc: bool,
+	/// validate the state identity: for one alternative history per merged state, re-execute every event and
+	/// compare the successor identities with those of the state's representative
+	pub merge_check: bool,
 }
 
 impl Scenario {
@@ -83,6 +89,7 @@ impl Scenario {
 			faults_then_power_loss: false,
 			fault_site_cap: None,
 			check_iter_rc: true,
+			merge_check: std::env::var("PDBMC_MERGE_CHECK").is_ok() || MERGE_CHECK_DEFAULT.load(std::sync::atomic::Ordering::SeqCst),
 		}
 	}
 }
@@ -128,11 +135,16 @@ pub struct Stats {
 	pub faults: crate::faultmc::FaultStats,
 	pub complete: bool,
 	pub capped_reason: Option<String>,
+	/// merged states whose alternative history was re-expanded / edges compared (state identity validation)
+	pub merge_checked_states: u64,
+	pub merge_checked_edges: u64,
 }
 
 impl Stats {
 	pub fn add(&mut self, o: &Stats) {
 		self.executions += o.executions;
+		self.merge_checked_states += o.merge_checked_states;
+		self.merge_checked_edges += o.merge_checked_edges;
 		self.states += o.states;
 		self.transitions += o.transitions;
 		self.noop_edges += o.noop_edges;
@@ -414,6 +426,7 @@ fn run_edge_inner(scn: &Scenario, hist: &[Ev], ev: Option<&Ev>, mut ex: Exec) ->
 }
 
 struct Node {
+	id: u128,
 	hist: Vec<Ev>,
 	rejects: usize,
 	commits: usize,
@@ -481,7 +494,9 @@ pub fn graph_search(scn: &Scenario, budget: &Budget) -> (Stats, Option<Found>) {
 	let mut obs_seen: HashSet<u64> = HashSet::new();
 	let root_dir = workdir(&format!("{}-root", sanitize(&scn.name)));
 	// root
-	let mut root = Node { hist: vec![], rejects: 0, commits: 0, reopens: 0, pm_mask: 0xff };
+	let mut root = Node { id: 0, hist: vec![], rejects: 0, commits: 0, reopens: 0, pm_mask: 0xff };
+	let mut succ: HashMap<u128, HashMap<String, u128>> = HashMap::new();
+	let mut alts: HashMap<u128, Node> = HashMap::new();
 	match run_edge(scn, &root_dir, &[], None) {
 		EdgeRes::Ok(o) => {
 			seen.insert(o.identity);
@@ -489,6 +504,7 @@ pub fn graph_search(scn: &Scenario, budget: &Budget) -> (Stats, Option<Found>) {
 			stats.executions += 1;
 			stats.crash.merge(&o.crash);
 			root.pm_mask = o.pm_mask;
+			root.id = o.identity;
 		},
 		EdgeRes::Skip => unreachable!(),
 		EdgeRes::Fail(f) => {
@@ -564,6 +580,9 @@ pub fn graph_search(scn: &Scenario, budget: &Budget) -> (Stats, Option<Found>) {
 					}
 					stats.crash.merge(&o.crash);
 					stats.faults.merge(&o.faults);
+					if scn.merge_check {
+						succ.entry(frontier[*ni].id).or_default().insert(format!("{:?}", ev), o.identity);
+					}
 					if o.rejected && frontier[*ni].rejects >= scn.max_rejects {
 						// the rejected commit was executed and judged; its successor state is beyond the bound
 						stats.transitions += 1;
@@ -579,6 +598,7 @@ pub fn graph_search(scn: &Scenario, budget: &Budget) -> (Stats, Option<Found>) {
 						let mut hist = p.hist.clone();
 						hist.push(ev.clone());
 						next_frontier.push(Node {
+							id: o.identity,
 							hist,
 							rejects: p.rejects + o.rejected as usize,
 							commits: p.commits + (matches!(ev, Ev::Commit(_)) && !o.rejected) as usize,
@@ -589,6 +609,19 @@ pub fn graph_search(scn: &Scenario, budget: &Budget) -> (Stats, Option<Found>) {
 						// edge into a known state (includes no-op events)
 						stats.transitions += 1;
 						stats.noop_edges += 1;
+						if scn.merge_check && !alts.contains_key(&o.identity) {
+							let p = &frontier[*ni];
+							let mut hist = p.hist.clone();
+							hist.push(ev.clone());
+							alts.insert(o.identity, Node {
+								id: o.identity,
+								hist,
+								rejects: p.rejects + o.rejected as usize,
+								commits: p.commits + (matches!(ev, Ev::Commit(_)) && !o.rejected) as usize,
+								reopens: p.reopens + matches!(ev, Ev::Reopen) as usize,
+								pm_mask: o.pm_mask,
+							});
+						}
 					}
 				},
 			}
@@ -608,6 +641,60 @@ pub fn graph_search(scn: &Scenario, budget: &Budget) -> (Stats, Option<Found>) {
 	}
 	stats.states = seen.len() as u64;
 	stats.distinct_obs = obs_seen.len() as u64;
+	// State identity validation: a history that was dropped because it reached a known state must have the
+	// same futures as the state's representative. For one such history per state, every event that is enabled for
+	// both is executed once more and must lead to the state the representative's edge led to. A difference means
+	// the identity (digest + file bytes + model + ...) misses something the implementation's behaviour depends on:
+	// a defect of the machinery, never a verdict about the property.
+	if scn.merge_check && stats.complete {
+		let mut plain = scn.clone();
+		plain.crash = None;
+		plain.faults = false;
+		let mut work: Vec<(u128, Vec<Ev>, Ev)> = vec![];
+		let mut ids: Vec<&u128> = alts.keys().collect();
+		ids.sort();
+		for id in ids {
+			let alt = &alts[id];
+			let known = match succ.get(id) {
+				Some(k) => k,
+				None => continue, // a state at the bound: never expanded
+			};
+			let mut any = false;
+			for ev in events_at(scn, alt) {
+				if known.contains_key(&format!("{:?}", ev)) {
+					work.push((*id, alt.hist.clone(), ev));
+					any = true;
+				}
+			}
+			if any {
+				stats.merge_checked_states += 1;
+			}
+		}
+		let items = crate::par::par_map(work.len(), threads, "merge", |i| {
+			let (_, hist, ev) = &work[i];
+			let r = run_edge(&plain, &worker_dir(), hist, Some(ev));
+			(encode_edge(&r), false)
+		});
+		for (i, it) in items.into_iter().enumerate() {
+			let (id, hist, ev) = &work[i];
+			let r = match it {
+				crate::par::Item::Done(b) => decode_edge(&b),
+				_ => continue,
+			};
+			stats.executions += 1;
+			if let EdgeRes::Ok(o) = r {
+				stats.merge_checked_edges += 1;
+				let want = succ[id][&format!("{:?}", ev)];
+				if o.identity != want {
+					let mut h = scn.init.clone();
+					h.extend(hist.iter().cloned());
+					h.push(ev.clone());
+					cleanup_scratch();
+					return (stats, Some(Found { scenario: scn.name.clone(), cfg: scn.cfg.clone(), history: h, fail: Fail::new("machinery", format!("state identity is not sound: this history was merged with another one reaching the same identity {:032x}, but event {} leads to a different state from here ({:032x}) than from the representative ({:032x})", id, ev.short(), o.identity, want)) }))
+				}
+			}
+		}
+	}
 	cleanup_scratch();
 	(stats, None)
 }
